@@ -16,7 +16,10 @@ Inductive c13case :=
 (* a network too large for the whole-lookup model (replies are truncated to the 20 closest): only the
    connectivity verdict is computed, on the final routing tables (main and signed-peers table together: both
    feed a node's find_node replies) of all (live, server-mode) nodes *)
-| KBig (tables : list (list nat)).
+| KBig (tables : list (list nat))
+(* C01 in a larger network: counts of puts / puts that returned Ok / gets while everybody is up / of those that found
+   the value / gets after a third of the nodes crashed (a live holder other than the reader remaining) / found *)
+| KBigStore (n puts put_ok gets found gets_c found_c : N).
 
 Definition set_eqb (a b : list nat) : bool := forallb (fun x => mem x b) a && forallb (fun x => mem x a) b.
 
@@ -185,6 +188,9 @@ Definition big_pb (tabs : list (list nat)) : bool :=
 Definition check13 (c : c13case) : list N :=
   match c with
   | KBig tabs => if big_pb tabs then [] else [2%N]
+  | KBigStore _ puts put_ok gets found gets_c found_c =>
+      (* every put succeeds in an honest network; floors for the success rate of reads far below the measured 100 % *)
+      if (N.eqb put_ok puts && N.leb (90 * gets) (100 * found) && N.leb (75 * gets_c) (100 * found_c))%bool then [] else [2%N]
   | KNet steps =>
       let '(ok, known) := run13_pb [] [] false steps in
       (if run13_model [] steps then [] else [1%N]) ++ (if ok then [] else [2%N]) ++ (if known then [123%N] else [])
